@@ -1,5 +1,6 @@
 (* Printing of model results as printable-ASCII Coq strings, mirrored by tools/vt canon_text. *)
 From Coq Require Import DecimalString.
+From Coq Require Export String.
 From TxV Require Import Core.Base.
 Open Scope string_scope.
 
